@@ -683,13 +683,22 @@ public:
 
 	~CMsgPackReadObjectScope()
 	{
-		ResetKey();
-		// Skip key/values that was not read
-		for (size_t c = mIndex; c < mSize; ++c)
+		// Skipping can fail (e.g. truncated input), but a destructor must not throw:
+		// the error is kept in the context and reported at the end of loading.
+		try
 		{
-			mMsgPackReader->SkipValue();
-			mMsgPackReader->SkipValue();
-			++mIndex;
+			ResetKey();
+			// Skip key/values that was not read
+			for (size_t c = mIndex; c < mSize; ++c)
+			{
+				mMsgPackReader->SkipValue();
+				mMsgPackReader->SkipValue();
+				++mIndex;
+			}
+		}
+		catch (...)
+		{
+			GetContext().DeferException(std::current_exception());
 		}
 	}
 
